@@ -188,8 +188,8 @@ Definition parse_xref_stream_sections (index width : list N) (data : bytes) (all
     the callers that need it). *)
 
 (* lexer/mod.rs: is_whitespace / Lexer::is_delimiter *)
-Definition is_ws (b : N) : bool := memN b xr_lex_ws.
-Definition is_delim (b : N) : bool := memN b xr_lex_delims.
+Definition is_ws (b : N) : bool := memN b lex_ws.            (* table from gen/extract_syn.py *)
+Definition is_delim (b : N) : bool := memN b lex_delims.
 Definition is_regular (b : N) : bool := negb (is_ws b) && negb (is_delim b).
 
 (* lexer/mod.rs: boundary(buf, pos, is_whitespace) *)
@@ -206,23 +206,23 @@ Definition skip_whitespace (l : bytes) : res bytes :=
   | r => Ok r
   end.
 
-(* buf[pos..].iter().position(|b| b == '\n') : the suffix after the first newline *)
+(* buf[pos..].iter().position(|b| b == '\n' || b == '\r') : the suffix after the first end-of-line byte *)
 Fixpoint after_nl (l : bytes) : option bytes :=
   match l with
-  | c :: r => if c =? xr_lex_nl then Some r else after_nl r
+  | c :: r => if memN c lex_comment_ends then Some r else after_nl r
   | [] => None
   end.
 
-(* lexer/mod.rs: next_word — `while self.buf.get(pos) == Some(&b'%')`.  Without a newline the
-   position only moves past the '%' (the comment text is then read as tokens). *)
+(* lexer/mod.rs: next_word — `while self.buf.get(pos) == Some(&b'%')`.  Without an end-of-line the
+   comment runs to the end of the buffer. *)
 Fixpoint skip_comments (fuel : nat) (l : bytes) : res bytes :=
   match fuel with
   | O => OutOfFuel
   | S f =>
       match l with
       | c :: r =>
-          if c =? xr_lex_comment then
-            do l' <- skip_whitespace (match after_nl r with Some r' => r' | None => r end);
+          if c =? lex_comment then
+            do l' <- skip_whitespace (match after_nl r with Some r' => r' | None => [] end);
             skip_comments f l'
           else Ok l
       | [] => Ok l
@@ -254,11 +254,11 @@ Definition next_word (l : bytes) : res (bytes * bytes) :=
       | [] => Err E_EOF
       | c :: r =>
           if is_delim c then
-            if c =? xr_lex_slash then
+            if c =? 47 then
               let (a, b) := span_regular r in Ok (c :: a, b)
             else
               match r with
-              | d :: r' => if existsb (bytes_eqb [c; d]) xr_lex_doubles then Ok ([c; d], r') else Ok ([c], r)
+              | d :: r' => if existsb (bytes_eqb [c; d]) [[60; 60]; [62; 62]] then Ok ([c; d], r') else Ok ([c], r)
               | [] => Ok ([c], r)
               end
           else
